@@ -38,7 +38,8 @@ def docs_index(model):
 
 def run(model, rep):
     rep.explanation = ('The equivalence of two running programs is not decidable from the minifier\'s source; its per-stage necessary conditions are decided under C02-C07 and C09. '
-                       'Decided here: (DEF) the set of options documented as safe is exactly the set that is on by default - docs index, minify() signature, the .pyi stub, the '
+                       'Decided here: (ALL) the real minify() evaluated with the default options on probe modules in four configurations, judged against the composition of the '
+                       'documented rewrites (reference implementations in the checker), the rename oracle and the de-hoisting oracle; (DEF) the set of options documented as safe is exactly the set that is on by default - docs index, minify() signature, the .pyi stub, the '
                        'RemoveAnnotationsOptions defaults and awslambda agree; (PIPE) the fixed order of the pipeline - parse, parent/namespace annotation, transforms, bind, resolve, '
                        'permission gates, hoist, rename, print - holds on every path and the returned text is the printer\'s result; (ANNOT) pipeline typestate: every annotation '
                        'attribute hung on the tree is read only by stages that run after the stage that populates it; (SELF) unparse() re-parses what it printed and compares it with '
@@ -46,6 +47,9 @@ def run(model, rep):
     for r, t in [('C01.DEF', 'safe options = defaults (docs / signature / stub / options class)'), ('C01.PIPE', 'pipeline order'), ('C01.ANNOT', 'producer-before-reader typestate of tree annotations'),
                  ('C01.SELF', 'post-print self check present on every return of unparse')]:
         rep.rule(r, t)
+    rep.rule('C01.ALL', 'the safe options together, end to end on probe modules: transforms = the documented rewrites composed; + renaming: alpha-equivalent; + hoisting: de-hoists to the same module; everything: compiles')
+    from . import compose_e2e
+    compose_e2e.run(model, rep, 'C01.ALL')
     P = Pipeline(model)
     mi = P.fi
     # ---------------- DEF
